@@ -85,13 +85,29 @@ def solver_unions(ctx):
                         inter.append((i, j, h, c))
         return groups, inter
 
+    made = []
+    orig_init = IT.Iterative.__init__
+
+    def spy_init(self, group):
+        orig_init(self, group)
+        made.append(self)
+
     def solve(groups, inter):
         for g in groups:
             g.determinants = {'sidechain': [], 'backbone': [], 'coulomb': []}
         ii = [[[groups[a], groups[b]], [h, c], [0., 0.]] for (a, b, h, c) in inter]
-        IT.add_determinants(ii, V())
+        del made[:]
+        IT.Iterative.__init__ = spy_init
+        try:
+            IT.add_determinants(ii, V())
+        finally:
+            IT.Iterative.__init__ = orig_init
+        # number of global iterations the solver made, and whether the last one still moved a pKa
+        solve.iterations = max([len(it.pka_iter) - 1 for it in made] or [0])
+        solve.moving = any(len(it.pka_iter) >= 2 and it.pka_iter[-1] != it.pka_iter[-2] for it in made)
         return [g.model_pka + sum(d.value for t in g.determinants for d in g.determinants[t]) for g in groups]
     leaks = []
+    oscillators = []
     n = 0
     for _ in range(1500 if ctx.quick() else 60000):
         ga, ia = system(rnd.randint(2, 4), 0)
@@ -99,11 +115,40 @@ def solver_unions(ctx):
         if not ia or not ib:
             continue
         alone = solve(ga, ia)
+        it_alone, moving = solve.iterations, solve.moving
+        if moving and len(oscillators) < 40:
+            oscillators.append(([(g.charge, g.model_pka) for g in ga], ia))
         union = solve(ga + gb, ia + [(a + len(ga), b + len(ga), h, c) for a, b, h, c in ib])[:len(ga)]
         n += 1
         ctx.case(key=("solver-union", tuple(ia), tuple(ib), tuple(g.model_pka for g in ga)))
         if any(abs(x - y) > 1e-9 for x, y in zip(alone, union)):
-            leaks.append(([(g.charge, g.model_pka) for g in ga], ia, [(g.charge, g.model_pka) for g in gb], ib, alone, union))
+            # D11 is: a cluster that passed the convergence test on its own is iterated further next to another cluster.  A
+            # cluster that never passes the test is iterated exactly as often alone as in any union, so a difference there is
+            # something else
+            leaks.append(([(g.charge, g.model_pka) for g in ga], ia, [(g.charge, g.model_pka) for g in gb], ib, alone, union,
+                          "D11" if not moving else "not-D11: the cluster alone used all %d iterations" % it_alone))
+    # clusters that never converge (they alternate between two assignments) next to many independent, quickly converging
+    # pairs - 50 and more, 100 and more iterative groups in total: the number of sweeps must not depend on the size of the system
+    def mk(spec):
+        out = []
+        for i, (q, m) in enumerate(spec):
+            at = Atom(); at.type, at.res_num, at.chain_id, at.res_name = 'atom', i + 1, 'A', 'ASP' if q < 0 else 'LYS'
+            g = Group(at); g.charge, g.model_pka = q, m
+            out.append(g)
+        return out
+    ctx.count("non-converging clusters found among the random systems", len(oscillators))
+    for spec, ia in oscillators[:(6 if ctx.quick() else 40)]:
+        for npairs in (24, 30, 50, 60):
+            ga = mk(spec)
+            alone = solve(ga, ia)
+            gb = mk([(-1.0, 4.0 + 0.01 * (k % 7)) if k % 2 == 0 else (1.0, 10.5) for k in range(2 * npairs)])
+            ib = [(2 * k + 1 + len(ga), 2 * k + len(ga), 0.0, 0.5) for k in range(npairs)]
+            union = solve(ga + gb, ia + ib)[:len(ga)]
+            n += 1
+            ctx.count("unions of a non-converging cluster with 48-120 further iterative groups")
+            ctx.case(key=("solver-big-union", tuple(ia), npairs, tuple(spec)))
+            if any(abs(x - y) > 1e-9 for x, y in zip(alone, union)):
+                leaks.append((spec, ia, "%d acid-base pairs" % npairs, "", alone, union, "not-D11: a cluster that never converges, next to %d more groups" % (2 * npairs)))
     # the decided witness
     def w():
         a = []
@@ -117,7 +162,7 @@ def solver_unions(ctx):
     g6 = w()
     union = solve(g6, [(2, 0, 0.0, 1.0), (2, 1, 0.0, 1.0), (3, 1, 0.0, 1.0), (5, 4, 0.5, 1.0)])[:4]
     if alone != union:
-        leaks.insert(0, ("decided witness of iter_leak_counterexample", alone, union))
+        leaks.insert(0, ("decided witness of iter_leak_counterexample", alone, union, "D11"))
     return n, leaks
 
 
@@ -247,9 +292,10 @@ def _run(ctx):
     ctx.oblige("spec: every group of a part inside the union = the same group of the part alone (1e-9), both file orders", not bad, str([(b[0], b[1], b[2], b[4][:1]) for b in bad[:2]]))
     n, leaks = solver_unions(ctx)
     unlisted = []
-    for lk in leaks[:3]:
-        sig = "D11:solver-stopping-rule-is-global"
-        ctx.violate(sig, "iterative.add_determinants: a cluster's result changes when an independent cluster is added: %r" % (lk[-2:],), dict(call="propka.iterative.add_determinants", witness=[str(x) for x in lk]))
+    leaks.sort(key=lambda lk: lk[-1] == "D11")          # the ones the known finding does not explain first
+    for lk in leaks[:4]:
+        sig = "D11:solver-stopping-rule-is-global" if lk[-1] == "D11" else "solver-union:" + lk[-1][:40]
+        ctx.violate(sig, "iterative.add_determinants: a cluster's result changes when an independent cluster is added: %r" % (lk[-3:],), dict(call="propka.iterative.add_determinants", witness=[str(x) for x in lk]))
         if sig not in ctx.known:
             unlisted.append(lk)
     ctx.coverage["solver_unions"] = n
